@@ -7,6 +7,7 @@ import (
 	"errors"
 	"fmt"
 	"math/rand"
+	"runtime"
 	"sort"
 	"strings"
 	"sync"
@@ -99,7 +100,8 @@ func c18NewDB() *c18DB {
 // c18StepFn is the i-th step; what it does is read from the script carried by the transaction's context, so that
 // one (shared) step function - and one shared Combine of such functions - serves every transaction.
 // kinds: 0 ok, 1 plain error, 2 panic, 3 error wrapping context.Canceled, 4 error wrapping context.DeadlineExceeded,
-// 5 the step rolls the transaction back itself and returns nil (generated as the last step only).
+// 5 the step rolls the transaction back itself and returns nil (generated as the last step only),
+// 6 panic(nil), 7 runtime.Goexit().
 func c18StepFn(i int) gormx.GormProcFn {
 	return func(txn *gorm.DB) error {
 		steps, _ := txn.Statement.Context.Value(c18KeyT{}).([]int)
@@ -123,6 +125,10 @@ func c18StepFn(i int) gormx.GormProcFn {
 		case 5:
 			_ = txn.Rollback()
 			return nil
+		case 6:
+			panic(nil) // recover() returns nil for it under the module's go 1.19 semantics
+		case 7:
+			runtime.Goexit() // e.g. t.FailNow() inside a step: deferred calls run, recover() returns nil
 		}
 		return nil
 	}
@@ -153,14 +159,23 @@ func (d *c18DB) run(beginOK, commitOK, rollbackOK bool, steps []int, combined bo
 	db := d.db.WithContext(context.WithValue(context.Background(), c18KeyT{}, steps))
 	var rerr error
 	var outerPanic interface{}
-	func() {
-		defer func() { outerPanic = recover() }()
+	returned := false
+	gone := make(chan struct{})
+	go func() { // own goroutine: a step may end it (runtime.Goexit)
+		defer close(gone)
+		defer func() {
+			if !returned {
+				outerPanic = recover()
+			}
+		}()
 		if combined {
 			rerr = gormx.Transact(db, c18SharedCombined[len(steps)])
 		} else {
 			rerr = gormx.Transact(db, c18SharedFns[:len(steps)]...)
 		}
+		returned = true
 	}()
+	<-gone
 	func() {
 		// a torn error value (two words written by racing goroutines) makes Error() fault: report it, do not die
 		defer func() {
@@ -171,6 +186,8 @@ func (d *c18DB) run(beginOK, commitOK, rollbackOK bool, steps []int, combined bo
 		switch {
 		case outerPanic != nil:
 			result = fmt.Sprintf("ESCAPED-PANIC %v", outerPanic)
+		case !returned:
+			result = "GOROUTINE-ENDED-WITHOUT-RETURN"
 		case rerr == nil:
 			result = "nil"
 		default:
@@ -227,6 +244,10 @@ func c18CoqResult(r string) string {
 	case strings.HasPrefix(r, "step-error-"):
 		fmt.Sscanf(r, "step-error-%d", &i)
 		return fmt.Sprintf("(RStepErr %d)", i)
+	case r == "db.transaction.panic:<nil>":
+		return "(RPanicErr 777)"
+	case r == "GOROUTINE-ENDED-WITHOUT-RETURN":
+		return "(RPanicErr 778)"
 	case strings.HasPrefix(r, "db.transaction.panic:step-panic-"):
 		fmt.Sscanf(r, "db.transaction.panic:step-panic-%d", &i)
 		return fmt.Sprintf("(RPanicErr %d)", i)
@@ -249,6 +270,10 @@ func c18CoqSteps(steps []int) string {
 			ss[i] = fmt.Sprintf("SPanic %d", i)
 		case 5:
 			ss[i] = "SDoneRb"
+		case 6:
+			ss[i] = "SPanic 777"
+		case 7:
+			ss[i] = "SPanic 778"
 		}
 	}
 	return vh.CoqList(ss)
@@ -258,7 +283,7 @@ func c18Case(comb, b, c, r bool, steps []int, ev []string, res string, class str
 	coq := fmt.Sprintf("(%s, {| begin_ok := %s; commit_ok := %s; rollback_ok := %s; steps := %s |}, (%s, %s))",
 		vh.CoqBool(comb), vh.CoqBool(b), vh.CoqBool(c), vh.CoqBool(r), c18CoqSteps(steps), c18CoqEvents(ev), c18CoqResult(res))
 	desc := map[string]interface{}{"combined": comb, "begin_ok": b, "commit_ok": c, "rollback_ok": r,
-		"steps(0 ok,1 error,2 panic,3 error wrapping context.Canceled,4 wrapping DeadlineExceeded,5 step rolls back itself)": steps, "events": ev, "result": res}
+		"steps(0 ok,1 error,2 panic,3 error wrapping context.Canceled,4 wrapping DeadlineExceeded,5 step rolls back itself,6 panic(nil),7 runtime.Goexit)": steps, "events": ev, "result": res}
 	for k, v := range extra {
 		desc[k] = v
 	}
@@ -309,6 +334,13 @@ func main() {
 			st := make([]int, n)
 			st[n-1] = 5
 			emit(st, " step-ends-tx")
+			for pos := 0; pos < n; pos++ {
+				for _, k := range []int{6, 7} {
+					sp := make([]int, n)
+					sp[pos] = k
+					emit(sp, " nil-panic-or-goexit")
+				}
+			}
 		}
 		// concurrent callers sharing ONE combined step (and one set of step functions), each in its own
 		// transaction on its own database handle; every distinct (configuration, observed trace) is emitted once
